@@ -112,52 +112,26 @@ example :
         (get s'.ca.classes 0).map (·.certs.issued) == some [(6, { res := [1], na := 70 })]
       | _ => false) = true := by decide
 
-/-! ## Active children keep their certificate – false on this tree (F-C02-1) -/
+/-! ## Active children keep their certificate, whatever the suspension history -/
 
-/-
-Full statement (false):
+/-- In every reachable state, in every class, the issued and the suspended map have pairwise
+different keys and no key is in both (no stale suspended entry): since fix bb96d233
+`add_issued_certificate` removes the suspended entry of the key it issues for.  On the pinned
+tree this failed after suspend → unsuspend (`pinned_add_issued_leaves_stale_entry`). -/
+theorem classes_tidy {s : Sys} (h : Reachable s) (rcn : Rcn) (rc : Rc) (hg : get s.ca.classes rcn = some rc) :
+    (keys rc.certs.issued).Nodup ∧ (keys rc.certs.suspended).Nodup ∧ rc.noStale = true := by
+  have ht : TidyC rc.certs := reachable_tidy h rcn rc hg
+  refine ⟨ht.ndI, ht.ndS, ?_⟩
+  simp only [Rc.noStale, List.all_eq_true]
+  intro p hp
+  have hs : (get rc.certs.issued p.1).isSome = true := get_isSome_iff_mem_keys.mpr (List.mem_map.mpr ⟨p, hp, rfl⟩)
+  simp [ht.disj p.1 hs]
 
-  theorem shrink_active_child (h : Reachable s) : s.ca.activeChildHasCert = true
-
-i.e. in every reachable state an active child's key that is in use in an existing class has
-its certificate among the issued (= published) ones, whatever the suspension history.
-`add_issued_certificate` (child.rs:200-203) leaves a `suspended` entry of the same key in place
-when an unsuspended child's certificate is re-issued; the next shrink then re-issues that stale
-entry as *suspended*, and `suspend_certificate` removes the active child's certificate.
--/
-
-
-/-- The negation, with the concrete witness (replayed on the implementation:
-corpus/system/c02-suspend-unsuspend-shrink.ops). -/
-theorem not_shrink_active_child : ¬ ∀ s : Sys, Reachable s → s.ca.activeChildHasCert = true := by
-  intro hall
-  have := hall (Sys.run {} staleHistory) (reachable_run .init _)
-  revert this
-  decide
-
-/-- What the witness state looks like: child 7 is active, its key 6 is in use in class 0, the
-class holds resource 1 which the child is entitled to, and yet nothing is issued: the
-certificate sits in `suspended`. -/
-example :
-    let s := Sys.run {} staleHistory
-    (get s.ca.children 7).map (·.active) = some true ∧
-    (get s.ca.classes 0).map (·.certs.issued) = some [] ∧
-    (get s.ca.classes 0).map (·.certs.suspended) = some [(6, { res := [1], na := 62 })] ∧
-    (get s.objs 0).map (·.currentSet.published) = some [] := by decide
-
-/-- Before the shrink the unsuspended child has its key in both maps (the stale entry). -/
-example :
-    (get (Sys.run {} (staleHistory.take 8)).ca.classes 0).map (fun rc => (rc.certs.issued, rc.certs.suspended)) =
-      some ([(6, { res := [1, 2], na := 61 })], [(6, { res := [1, 2], na := 60 })]) := by decide
-
-/-- What is proved of `shrink_active_child`: in a class **without stale suspended entries**
-(no key both issued and suspended; keys of `issued` pairwise different, as in a `HashMap`), the
-command that receives a smaller certificate leaves every issued child certificate exactly as
-the property demands: untouched if it still fits, re-issued with the intersection if the
-intersection is not empty, removed if nothing is left.  Missing for the full statement: the
-two hypotheses; `shrink_active_child_quiet_partial` below discharges them for the histories
-without the F-C02-1 trigger (on this tree unsuspension breaks the first one). -/
-theorem shrink_active_child_partial (rc : Rc) (hnd : (keys rc.certs.issued).Nodup) (hns : rc.noStale = true)
+/-- The class-level core: in a class without stale suspended entries (no key both issued and
+suspended; keys of `issued` pairwise different, as in a `HashMap`), the update computed by
+`shrink_overclaiming` leaves every issued child certificate untouched if it still fits,
+re-issued with the intersection if the intersection is not empty, removed if nothing is left. -/
+theorem shrink_exact_in_tidy_class (rc : Rc) (hnd : (keys rc.certs.issued).Nodup) (hns : rc.noStale = true)
     (cert : Cert) (na : Int) (upd : CertUpd) (hsh : rc.certs.shrinkOverclaiming cert na = .ok upd)
     (k : KeyId) (cc : ChildCert) (hk : get rc.certs.issued k = some cc) :
     (subset cc.res cert.res = true → get (rc.certs.applyUpd upd).issued k = some cc) ∧
@@ -221,27 +195,13 @@ example :
       [(6, { res := [1], na := 9 }), (5, { res := [1] })] := by decide
 
 
-/-- The two hypotheses of `shrink_active_child_partial` are invariants of every history in which
-no certificate is issued for a key that has a suspended entry (`ReachableQ`: no unsuspension of
-a suspended child, no certify for a key still suspended; the one-line repair of
-`add_issued_certificate` would make the restriction unnecessary). -/
-theorem quiet_classes_tidy {s : Sys} (h : ReachableQ s) (rcn : Rcn) (rc : Rc) (hg : get s.ca.classes rcn = some rc) :
-    (keys rc.certs.issued).Nodup ∧ (keys rc.certs.suspended).Nodup ∧ rc.noStale = true := by
-  have ht : TidyC rc.certs := reachableQ_tidy h rcn rc hg
-  refine ⟨ht.ndI, ht.ndS, ?_⟩
-  simp only [Rc.noStale, List.all_eq_true]
-  intro p hp
-  have hs : (get rc.certs.issued p.1).isSome = true := get_isSome_iff_mem_keys.mpr (List.mem_map.mpr ⟨p, hp, rfl⟩)
-  simp [ht.disj p.1 hs]
-
-/-- `shrink_active_child` for the histories without the F-C02-1 trigger, unbounded: in every state
-reached by quiet commands, in every class, the command that receives a smaller certificate
-leaves each issued child certificate untouched if it still fits, re-issues it with the
-intersection if that is not empty and removes it if nothing is left.  Missing for the full
-statement: histories with an unsuspension of a suspended child (where the statement is false on
-this tree, `not_shrink_active_child`), and the link from "in use by an active child" to "issued
-in the class", which in the model also needs that no two children share a key. -/
-theorem shrink_active_child_quiet_partial {s : Sys} (h : ReachableQ s) (rcn : Rcn) (rc : Rc)
+/-- `shrink_active_child` (full, since fix bb96d233): in **every** reachable state – whatever the
+suspension history of the children – in every class, the command that receives a smaller
+certificate leaves each issued child certificate untouched if it still fits, replaces it in
+`issued` by one with the intersection if that is not empty, and removes it only if nothing is
+left.  (The listener publishes the same update in the same command: `shrink_in_same_command`;
+that the published set equals `issued` is C01's `objects_mirror`.) -/
+theorem shrink_active_child {s : Sys} (h : Reachable s) (rcn : Rcn) (rc : Rc)
     (hg : get s.ca.classes rcn = some rc)
     (cert : Cert) (na : Int) (upd : CertUpd) (hsh : rc.certs.shrinkOverclaiming cert na = .ok upd)
     (k : KeyId) (cc : ChildCert) (hk : get rc.certs.issued k = some cc) :
@@ -252,48 +212,84 @@ theorem shrink_active_child_quiet_partial {s : Sys} (h : ReachableQ s) (rcn : Rc
       ∃ cc', get (rc.certs.applyUpd upd).issued k = some cc' ∧
         reissue cc (some (inter cert.res cc.res)) cert na = .ok cc' ∧
         (cc.limit = none → cc'.res = inter cert.res cc.res)) :=
-  let ⟨hnd, _, hns⟩ := quiet_classes_tidy h rcn rc hg
-  shrink_active_child_partial rc hnd hns cert na upd hsh k cc hk
+  let ⟨hnd, _, hns⟩ := classes_tidy h rcn rc hg
+  shrink_exact_in_tidy_class rc hnd hns cert na upd hsh k cc hk
 
-/-- Non-vacuity: the history up to the suspension is quiet and contains a shrink-relevant class;
-the unsuspension that follows is not. -/
+/-- The F-C02-1 history (suspend → unsuspend → shrink) on the fixed tree: the unsuspended child
+keeps a certificate, narrowed to what the class still holds, issued and published; nothing is
+left in `suspended`. -/
 example :
-    let s := Sys.run {} (staleHistory.take 7)
-    (Cmd.childSuspend 7).quiet (Sys.run {} (staleHistory.take 6)).ca = true ∧
-    (Cmd.childUnsuspend 7 10 61).quiet s.ca = false ∧
-    (get s.ca.classes 0).map (·.certs.suspended) = some [(6, { res := [1, 2], na := 60 })] := by decide
+    let s := Sys.run {} staleHistory
+    s.ca.activeChildHasCert = true ∧
+    (get s.ca.children 7).map (·.active) = some true ∧
+    (get s.ca.classes 0).map (·.certs.issued) = some [(6, { res := [1], na := 62 })] ∧
+    (get s.ca.classes 0).map (·.certs.suspended) = some [] ∧
+    (get s.objs 0).map (·.currentSet.published) = some [(.cer 6, .cert { res := [1], na := 62 })] := by decide
+
+/-- Counter-model of the pinned tree (before bb96d233): `add_issued_certificate` was
+`issued.insert` only, so suspend → unsuspend left key 6 in both maps. -/
+theorem pinned_add_issued_leaves_stale_entry :
+    let cc : ChildCert := { res := [1, 2], na := 60 }
+    let cs := (({} : ChildCerts).addIssued (6, cc)).suspend (6, cc)
+    (cs.pinnedAddIssued (6, { cc with na := 61 })).suspended = [(6, cc)] ∧
+    (cs.addIssued (6, { cc with na := 61 })).suspended = [] := by decide
+
+/-- Counter-model of the pinned tree (F-C02-1): from the stale state the next shrink re-issued
+the stale entry as *suspended* and `suspend_certificate` removed the active child's certificate
+from `issued` – the negation of `shrink_active_child` there (replayed on the pinned tree by
+corpus/system/c02-suspend-unsuspend-shrink.ops, which now must pass). -/
+theorem pinned_shrink_withdraws_active_child :
+    let stale : ChildCerts := { issued := [(6, { res := [1, 2], na := 61 })], suspended := [(6, { res := [1, 2], na := 60 })] }
+    (match stale.shrinkOverclaiming { res := [1], na := 100 } 62 with
+      | .ok upd => get (stale.pinnedApplyUpd upd).issued 6 == none &&
+          (get (stale.pinnedApplyUpd upd).suspended 6).isSome
+      | .error _ => false) = true := by decide
+
+/-- The state-level predicate the oracle evaluates (`ActiveChildHasCert`: every key in use by an
+active child is issued in its class) additionally needs that no two children present the same
+key: in the model a second child certifying the first child's key and then being suspended
+takes the shared certificate with it.  Not reachable with the system harness (child keys are
+generated by the child CAs). -/
+example :
+    (Sys.run {} [ .repoUpdate [], .addParent 9,
+      .updateEntitlements 9 [⟨0, [1, 2, 3], 100, []⟩] 0 [4],
+      .updateRcvdCert 0 4 { res := [1, 2, 3], na := 100 } 50 [],
+      .childAdd 7 [1, 2], .childAdd 8 [1, 2],
+      .childCertify 7 0 6 none 60, .childCertify 8 0 6 none 60,
+      .childSuspend 8 ]).ca.activeChildHasCert = false := by decide
 
 /-! ## The published level -/
 
 /-
-Full statement: in every reachable state every *published* child certificate lies inside the
-certificate of the set that publishes it (`Sys.noOverclaimPublished`).  `never_overclaims`
-above is this statement for the aggregate's `issued` map – what the CA believes it publishes.
-The two agree as long as the listener's object set mirrors the aggregate; F-C02-1 breaks that
-mirror: `shrink_overclaiming` can name a key in `issued` **and** in `removed` (live certificate
-re-issued, stale suspended entry shrunk to nothing), `CertAuth::apply` inserts then removes,
-`KeyObjectSet::update_certs` removes then inserts – the re-issued certificate stays published
-as an orphan and over-claims after the next shrink.  Witness below, replayed on the
-implementation (corpus/system/c02-stale-orphan-published.ops).
+`never_overclaims` above is about the aggregate's `issued` map – what the CA believes it
+publishes.  The published set agrees with it as long as the listener's object set mirrors the
+aggregate (C01's `objects_mirror`; here the oracle `NoOverclaimPublished` evaluates it on the
+implementation's own object sets after every operation).  On the pinned tree F-C02-1 broke the
+mirror; the counter-model is kept below.
 -/
 
+/-- Counter-model of the pinned tree (F-C02-1, second consequence): from a stale state
+`shrink_overclaiming` can name a key in `issued` **and** in `removed` (live certificate
+re-issued, stale suspended entry shrunk to nothing); `CertAuth::apply` inserts then removes,
+`KeyObjectSet::update_certs` removes then inserts – the re-issued certificate stayed published
+as an orphan the CA no longer tracked (replayed on the pinned tree by
+corpus/system/c02-stale-orphan-published.ops, which now must pass). -/
+theorem pinned_shrink_orphans_certificate :
+    let stale : ChildCerts := { issued := [(6, { res := [1, 2, 3], na := 62 })], suspended := [(6, { res := [1, 2], na := 60 })] }
+    let os : ObjSet := { key := 4, cert := { res := [1, 2, 3], na := 100 }, published := [(.cer 6, .cert { res := [1, 2, 3], na := 62 })] }
+    (match stale.shrinkOverclaiming { res := [3], na := 100 } 63 with
+      | .ok upd => decide (6 ∈ upd.issued.map (·.1)) && decide (6 ∈ upd.removed) &&
+          (get (stale.pinnedApplyUpd upd).issued 6 == none) &&
+          (get (os.updateCerts upd).published (.cer 6) == some (.cert { res := [3], na := 63 }))
+      | .error _ => false) = true := by decide
 
-theorem not_never_overclaims_published :
-    ¬ ∀ s : Sys, Reachable s → s.noOverclaimPublished = true := by
-  intro hall
-  have := hall (Sys.run {} orphanHistory) (reachable_run .init _)
-  revert this
-  decide
-
-/-- The orphan: nothing issued, the key revoked in the child's record, and still a certificate
-for resource 3 published under a certificate that holds resource 2 only. -/
+/-- The same history on the fixed tree: what is published is what is issued, inside the
+certificate. -/
 example :
     let s := Sys.run {} orphanHistory
+    s.noOverclaimPublished = true ∧ s.ca.noOverclaim = true ∧ s.ca.activeChildHasCert = true ∧
     (get s.ca.classes 0).map (·.certs.issued) = some [] ∧
-    (get s.ca.children 7).map (·.usedKeys) = some [(6, .revoked)] ∧
-    (get s.objs 0).map (fun ok => (ok.currentSet.cert.res, ok.currentSet.published)) =
-      some ([2], [(.cer 6, .cert { res := [3], na := 63 })]) ∧
-    s.ca.noOverclaim = true := by decide
+    (get s.objs 0).map (fun ok => (ok.currentSet.cert.res, ok.currentSet.published)) = some ([2], []) := by decide
 
 /-! ## Synchronisation converges and is then idempotent -/
 
